@@ -791,6 +791,72 @@ def part_random(payload):
     return part
 
 
+ANGLE_UNITS = ["rad", "degree", "arcmin", "arcsec", "mas", "mrad", "urad", "lat", "lon", "vf_bearing", "kvf_bearing"]
+
+
+def part_trig(payload):
+    """angle-aware functions over every angle spelling, incl. the offset ones (lat, lon, a custom offset angle): the value is
+    f(angle in radians by the independent table), and re-expressing the angle in another unit changes nothing"""
+    import math
+
+    import unyt.dimensions as D
+    from unyt import Unit, unyt_array
+    from unyt.unit_registry import UnitRegistry
+
+    known = core.Known("C04")
+    part = core.Part()
+    reg = UnitRegistry()
+    reg.add("vf_bearing", 1.0 / 8, D.angle, offset=16.0, prefixable=True)  # radians = (value - 16) / 8
+
+    def rad_of(u, v):
+        if u.endswith("vf_bearing"):
+            k = 1000.0 if u.startswith("k") else 1.0
+            return (v * k - 16.0) / 8.0 if k == 1.0 else None
+        sc, _, off = R.atom(u)
+        return float(sc) * (v - float(off))
+
+    fns = {"sin": (np.sin, math.sin), "cos": (np.cos, math.cos), "tan": (np.tan, math.tan), "sin(out=)": (lambda q: (lambda o: (np.sin(q, out=o), o)[1])(np.zeros(np.shape(q))), math.sin),
+           "cos*1": (lambda q: np.cos(q * 1.0), math.cos), "sin(scalar)": (lambda q: np.array([float(np.sin(x)) for x in q]), math.sin)}
+    for u in payload["units"]:
+        for vals in payload["values"]:
+            rads = [rad_of(u, v) for v in vals]
+            if any(r is None for r in rads):
+                continue
+            q = unyt_array(np.array(vals, dtype=float), Unit(u, registry=reg))
+            for fname, (lf, rf) in fns.items():
+                part.ev()
+                try:
+                    got = np.asarray(lf(q), dtype=float)
+                except Exception as e:
+                    core.classify(known, part, f"C04:trig-raises:{fname}:{'offset' if u in ('lat', 'lon', 'vf_bearing') else 'scaled'}", {"unit": u, "values": vals, "error": f"{type(e).__name__}: {e}"[:160]})
+                    continue
+                want = np.array([rf(r) for r in rads])
+                ok = np.all(np.abs(got - want) <= 1e-9 * (1 + np.abs(want)) * np.maximum(1.0, np.abs(rads)))
+                if fname.startswith("tan"):
+                    ok = np.all((np.abs(got - want) <= 1e-6 * (1 + want * want) * np.maximum(1.0, np.abs(rads))) | (np.abs(np.cos(rads)) < 1e-6))
+                if not ok:
+                    core.classify(known, part, f"C04:trig-value:{fname}:{'offset' if u in ('lat', 'lon', 'vf_bearing') else 'scaled'}-angle-unit",
+                                  {"unit": u, "values": vals, "got": got.tolist(), "want": want.tolist()})
+                else:
+                    part.nt(("trig", u, fname))
+                # re-expression
+                for u2 in payload["units"]:
+                    if u2 == u or u2.startswith("k"):
+                        continue
+                    try:
+                        q2 = q.to(Unit(u2, registry=reg))
+                        got2 = np.asarray(lf(q2), dtype=float)
+                    except Exception:
+                        continue
+                    part.ev()
+                    tol = 1e-9 * (1 + np.abs(got)) * np.maximum(1.0, np.abs(rads)) if not fname.startswith("tan") else 1e-6 * (1 + got * got) * np.maximum(1.0, np.abs(rads))
+                    if not np.all((np.abs(got2 - got) <= tol) | (np.abs(np.cos(rads)) < 1e-6)):
+                        core.classify(known, part, f"C04:trig-depends-on-unit:{fname}", {"unit": u, "re-expressed in": u2, "values": vals, "first": got.tolist(), "second": got2.tolist()})
+    if len(part.samples) < 2:
+        part.sample({"angle units": payload["units"], "functions": sorted(fns)})
+    return part
+
+
 def run(ctx):
     ctx.rule = (
         "Hypothesis straight-line programs (2-4 leaves, up to 10 further steps; ~60 operation spellings: + - * / // % divmod-free "
@@ -798,7 +864,9 @@ def run(ctx):
         "scalars, comparisons, plus deliberately invalid mixed-dimension steps) over leaves whose units are constructed per "
         "dimension (atomic, prefixed, named derived units, compounds; 1 in 4 programs in a power-of-64 custom registry). Every "
         "register is compared with a reference interpreter on SI magnitudes (independent scales, propagated error bound); "
-        "dyadic programs are re-run with every leaf re-expressed and compared bit for bit. non-trivial = distinct (set of "
+        "dyadic programs are re-run with every leaf re-expressed and compared bit for bit. Exhaustive side sweep: sin/cos/tan (call, out=, "
+        "scalar, after *1) over 11 angle spellings incl. the offset ones (lat, lon, a custom offset angle) x 4 value sets, against math.* of the "
+        "table's radians and under re-expression in every other angle unit. non-trivial = distinct (set of "
         "operation spellings, #leaves, registry kind) of programs with >=2 distinct leaf units and >=1 combining operation"
     )
     ctx.assumptions = [
@@ -807,6 +875,8 @@ def run(ctx):
         "tolerance = 64 eps x propagated forward error bound",
         "exp/log/hyperbolic/rounding family and floor-division of different dimensions are outside the claim and not generated",
     ]
+    tv = [[0.0, 30.0, -45.0, 80.0], [1.5, -2.25, 0.125, 3.0], [90.0, 180.0, -90.0, 10.0], [(ctx.seed % 7) + 0.5, -(ctx.seed % 11) - 0.25, 60.0, 17.0]]
+    ctx.merge(core.pmap(MOD, "part_trig", [{"units": ANGLE_UNITS, "values": [v]} for v in tv]))
     n = ctx.pick(16000, 320000)
     ctx.merge(core.pmap(MOD, "part_random", [{"n": n // 16, "seed": ctx.seed * 1000 + i} for i in range(16)]))
 
